@@ -15,15 +15,18 @@
 """
 import concurrent.futures
 import math
+import os
 import re
+import shutil
 import struct
+import time
 from pathlib import Path
 
 import vlib
 from gens import gamma as G
 
 LN10 = math.log(10.0)
-MW = 0.01801528          # kg/mol; the code uses 1/55.50837
+MW = 1.0 / 55.50837     # kg/mol: the molar mass of water the engine uses (moles of water per kg = 55.50837)
 TOL_LG = 1e-9
 TOL_GD = 1e-4
 TOL_AW = 1e-5
@@ -32,6 +35,41 @@ IA_DBS = ["phreeqc.dat", "wateq4f.dat", "llnl.dat", "minteq.v4.dat", "minteq.dat
           "core10.dat", "Tipping_Hurley.dat", "iso.dat"]
 IA_QUICK = ["phreeqc.dat", "wateq4f.dat", "llnl.dat", "minteq.v4.dat", "Amm.dat", "minteq.dat"]
 PZ_DBS = [("pitzer.dat", None), ("sit.dat", None), ("frezchem.dat", None), ("ColdChem.dat", None), ("pitzer.dat", "Concrete_PZ.dat")]
+
+
+PM = {"path": None}
+
+
+def pm_setup(ctx):
+    """private copy of the freshly built `pmodel` (another check's `lake build` may relink the shared binary while
+    this check is running)"""
+    dst = vlib.BUILD / f"pmodel-c16-{os.getpid()}"
+    for _ in range(90):
+        try:
+            shutil.copy2(ctx.pmodel_path(), dst)
+            PM["path"] = dst
+            return
+        except OSError:
+            time.sleep(1.0)
+    PM["path"] = None
+
+
+def pm_done():
+    if PM["path"] is not None:
+        try:
+            os.unlink(PM["path"])
+        except OSError:
+            pass
+        PM["path"] = None
+
+
+def pmodel(ctx, text):
+    if PM["path"] is None:
+        return ctx.pmodel("gamma", text)
+    r = vlib.sh([str(PM["path"]), "gamma"], input=text, timeout=600)
+    if r.returncode:
+        raise RuntimeError("pmodel gamma failed: " + r.stderr[-1000:])
+    return r.stdout.splitlines()
 
 
 def hexd(v):
@@ -368,7 +406,7 @@ def judge_ia(ctx, dbname, dbt, ses, run, stats, sel_cache):
         if mu_rep != S["mu"] or dha_rep != exp_a or dhb_rep != exp_b or tc_rep != S["tc"]:
             probs.append({"kind": "scalar-readout", "MU": [mu_rep, S["mu"]], "DH_A": [dha_rep, exp_a], "DH_B": [dhb_rep, exp_b]})
         pre, plan = ia_model_lines(dbt, ses, sol)
-        out = ctx.pmodel("gamma", "\n".join(pre) + "\n") if pre else []
+        out = pmodel(ctx, "\n".join(pre) + "\n") if pre else []
         env = {"aLA": 0.0, "bLA": 0.0, "bdA": 0.0, "co2A": 0.0, "aLB": None, "bLB": None, "bdB": None, "co2B": None}
         for (what, key), o in zip(plan, out):
             v = None if o.split()[1] == "none" else unhex(o.split()[1])
@@ -405,7 +443,7 @@ def judge_ia(ctx, dbname, dbt, ses, run, stats, sel_cache):
             key = (dbname, sp["name"])
             if key not in sel_cache:
                 zz = 1 if abs(d["z"]) < 1e-9 else 0
-                o = ctx.pmodel("gamma", "sel %d %s %s\n" % (zz, d["special"], " ".join(d["opts"])))[0].split()
+                o = pmodel(ctx, "sel %d %s %s\n" % (zz, d["special"], " ".join(d["opts"])))[0].split()
                 sel_cache[key] = (int(o[1]), o[2], o[3])
             fl, dha, dhb = sel_cache[key]
             if has and env["aLB"] is None:
@@ -416,7 +454,7 @@ def judge_ia(ctx, dbname, dbt, ses, run, stats, sel_cache):
                 has, hexd(env["aLB"] or 0.0), hexd(env["bLB"] or 0.0), hexd(env["bdB"] or 0.0), hexd(env["co2B"] or 0.0),
                 Sh["la_h2o"], Sh["gfw_water"]))
             idx.append((sp, "B", fl, unhex(dha), unhex(dhb), d["z"]))
-        out = ctx.pmodel("gamma", "\n".join(lines) + "\n") if lines else []
+        out = pmodel(ctx, "\n".join(lines) + "\n") if lines else []
         for ent, o in zip(idx, out):
             sp = ent[0]
             w = o.split()
@@ -519,7 +557,7 @@ def judge_pz(ctx, pz, stats):
     if pz["patm"] > 1.0:
         stats["pz_patm_gt1"] += 1
         return []
-    out = ctx.pmodel("gamma", "\n".join(pz_model_block(pz)) + "\n")
+    out = pmodel(ctx, "\n".join(pz_model_block(pz)) + "\n")
     probs = []
     pc = [o.split() for o in out if o.startswith("PC")]
     pl = [o.split() for o in out if o.startswith("PL")]
@@ -614,7 +652,7 @@ def path_input(names, path, npts, with_pz=False):
 def run_gd_path(ctx, exe, db, extra, names, path, stats):
     """adaptive refinement; returns (verdict, info) with verdict in ok / bad / unjudged"""
     info = {}
-    for npts in (17, 33, 65, 129):
+    for npts in (17, 33, 65, 129, 257):
         ses = session(ctx, exe, db, extra, [f"run 0 {hs(path_input(names, path, npts))}\n"])
         if ses["db"] != 0 or not ses["runs"]:
             return "unjudged", {"why": "database"}
@@ -632,7 +670,7 @@ def run_gd_path(ctx, exe, db, extra, names, path, stats):
         info = dict(j, npts=npts, aw=[aw_oracle(s) for s in (sols[0], sols[-1])], sols=sols)
         if j["scale"] <= 0:
             return "unjudged", {"why": "zero scale"}
-        if j["est"] <= 1e-6 * j["scale"]:
+        if j["est"] <= 3e-6 * j["scale"]:
             stats["gd_npts"][npts] = stats["gd_npts"].get(npts, 0) + 1
             ok = abs(j["lhs"] - j["rhs"]) <= TOL_GD * j["scale"]
             return ("ok" if ok else "bad"), info
@@ -731,6 +769,14 @@ def new_stats():
 
 def run(ctx):
     ok = ctx.prove(["PhreeqcVerif.Properties.C16"])
+    pm_setup(ctx)
+    try:
+        run_checks(ctx, ok)
+    finally:
+        pm_done()
+
+
+def run_checks(ctx, ok):
     ctx.build_lib()
     exe = ctx.build_harness("ph_gamma")
     thorough = ctx.tier == "thorough" or not ok
@@ -845,6 +891,14 @@ def replay(ctx, data):
     ctx.build_lib()
     exe = ctx.build_harness("ph_gamma")
     ctx.prove(["PhreeqcVerif.Properties.C16"])
+    pm_setup(ctx)
+    try:
+        replay_case(ctx, exe, data)
+    finally:
+        pm_done()
+
+
+def replay_case(ctx, exe, data):
     stats = new_stats()
     kind = data.get("kind")
     if kind == "ia":
